@@ -97,7 +97,7 @@ def run(M, rep, tier, only=None):
                   technique="must-read on all abstract paths")
     R4 = rep.rule("C02.R4", "hdf5 layer attribute contract (None deletes, else store value under name)", floor=4,
                   technique="decision table of set_attr/get_attr in raw h5py mode")
-    R5 = rep.rule("C02.R5", "File.close reaches h5py close on all normal paths; __exit__ closes", floor=2,
+    R5 = rep.rule("C02.R5", "File.close reaches h5py close on all normal paths; __exit__ closes; closing writes nothing", floor=4,
                   technique="must-pass-through on all abstract paths")
     R6 = rep.rule("C02.R6", "containers keep no state: no stores to self outside __init__", floor=20,
                   technique="heap-store events on all abstract paths")
@@ -349,6 +349,16 @@ def run(M, rep, tier, only=None):
                 badp = p
         rep.check(R5, "File." + nm, badp is None, "a normal path of File.%s does not close the h5py file" % nm,
                   site=f.file + ":%d" % f.node.lineno, detail=describe_path(badp) if badp else None)
+        # closing is not a change: nothing is written to the file's content on the way out (what reads back after reopening
+        # is what was there before close() was called -- a forced time stamp included)
+        wr = None
+        for p in ctx.paths(f, "File"):
+            for e in p.events:
+                if ctx.fx.is_write(e):
+                    wr = (p, e)
+        rep.check(R5, "File.%s/writes nothing" % nm, wr is None, "File.%s writes to the file (%s): the state read back after reopening is not "
+                  "the state the session left" % (nm, wr[1].brief()[:100] if wr else ""), site=wr[1].site if wr else None,
+                  detail=describe_path(wr[0]) if wr else None)
 
     # ---- R6
     for cn, name, tb, f in surface(M, CONTAINER_CLASSES, ("methods",)):
